@@ -54,6 +54,30 @@ def conservation(nested_subset, labels, values):
     return None
 
 
+def replication_shape(nodes):
+    """A.6: a replication node holds one member list per repetition -- as many lists as its count says (YYY of a fixed
+    replication, the factor value of a delayed one), all with the same sequence of member ids. -> None or description"""
+    for n in nodes:
+        if is_replication(n):
+            want = n['factor']['value'] if 'factor' in n else int(n['id'][3:6])
+            reps = n['members']
+            if len(reps) != want:
+                return 'replication %s shows %d repetitions, its count is %r' % (n['id'], len(reps), want)
+            # marker values (T/F/D/R + the id of the element they stand for) differ between repetitions by nature
+            ids = [[m['id'][:1] if m['id'][:1] in 'TFDR' else m['id'] for m in rep] for rep in reps]
+            if any(i != ids[0] for i in ids):
+                return 'replication %s: repetitions differ in their member ids: %r' % (n['id'], ids[:3])
+            for rep in reps:
+                e = replication_shape(rep)
+                if e:
+                    return e
+        elif 'members' in n and 'value' not in n:
+            e = replication_shape(n['members'])
+            if e:
+                return e
+    return None
+
+
 def ownership(nested_subset, labels, values, links, meaning_of=None):
     """
     links: {attribute flat index -> owner flat index} (bitmap-driven attributes).
